@@ -318,6 +318,11 @@ class QvmCpu:
                     return False
             else:
                 self.tick()
+            if self.halted:
+                # the machine stopped; the address after the halting
+                # instruction is not going to be executed, so a
+                # breakpoint there has not been reached
+                continue
             for bp in self.breakpoints:
                 if bp(self):
                     self.last_breakpoint = bp
